@@ -57,7 +57,7 @@ def calculate_checksum_udp(packet: Packet):
         pseudo_header.extend(packet.ip_dst)
         pseudo_header.extend(len(packet.udp).to_bytes(4, 'big'))
         pseudo_header.extend(b'\x00\x00\x00')
-        pseudo_header.extend(packet.ip.nxt.to_bytes(1, 'big'))
+        pseudo_header.extend(b'\x11')  # the upper-layer protocol, not the first extension header (RFC 8200 8.1)
 
     udp_data = bytearray(bytes(packet.udp))
 
@@ -95,7 +95,7 @@ def calculate_checksum_tcp(packet: Packet):
         pseudo_header.extend(packet.ip_dst)
         pseudo_header.extend(len(packet.tcp).to_bytes(4, 'big'))
         pseudo_header.extend(b'\x00\x00\x00')
-        pseudo_header.extend(packet.ip.nxt.to_bytes(1, 'big'))
+        pseudo_header.extend(b'\x06')  # the upper-layer protocol, not the first extension header (RFC 8200 8.1)
 
     # TCP Body
     tcp_data = bytearray(bytes(packet.tcp))
